@@ -14,6 +14,10 @@ CHECKS = {
    text='bounded symbolic execution of the real get_http_range / OnDemandMedia.get with range positions and content length as solver variables; RFC 7233 oracle; every path enumerated, every obligation an SMT validity query',
    note='header families: well-formed single ranges (3 shapes + case/whitespace variants) with unbounded positions, L <= 2^40; flask request is a stand-in dict; werkzeug header parsing outside the claim',
    ref='DESIGN.md 5 C13'),
+ 'C01': dict(
+   text='manifest side (DashTiming, generateSegmentTimeline) and media side (DashTiming rebuilt from the URL values, LiveMedia.calculate_media_segment_index) executed symbolically on the same clock: now = base instant + symbolic microsecond window, symbolic depth, leeway, requested $Number$ / timeline entry; DASH availability window oracle from manifest values only',
+   note='layout catalogue (fixtures + synthetic), base instants 65 s .. 54 years, clock window two loops of the reference, explicit availabilityStartTime (C08 resolves symbolic starts, C07 the URL transfer); floats as exact rationals with error bounds; HTTP routing outside',
+   ref='DESIGN.md 5 C01'),
  'C08': dict(
    text='DashTiming executed on a fully symbolic calendar instant (year..microsecond are solver variables, calendar arithmetic relational), symbolic depth and explicit start; coherence obligations as SMT validity queries on every path; monotonicity by a one-day-window induction step',
    note='now in 1971..2200 UTC; minimumUpdatePeriod from a concrete catalogue (it divides a symbolic value); reference (segment_duration, timescale) from the layout catalogue; float total_seconds() modelled as exact rational with error bound',
